@@ -40,12 +40,12 @@ func RandomLayout(r *rand.Rand) *Layout {
 }
 
 type writer struct {
-	l        *Layout
-	sb       strings.Builder
-	prev     string
-	prevKind int    // 0 other, 1 ident/keyword, 2 number
-	nl       []bool // stack: newlines ignored here?
-	inQuoted int    // depth of enclosing quoted templates
+	l            *Layout
+	sb           strings.Builder
+	prev         string
+	prevKind     int    // 0 other, 1 ident/keyword, 2 number
+	nl           []bool // stack: newlines ignored here?
+	inQuoted     int    // depth of enclosing quoted templates
 	inHeredocSeq int
 }
 
@@ -601,8 +601,8 @@ func heredocSafeText(s string) bool {
 // kept out of random heredoc layouts, exercised by a directed case).
 func stripCrossesNewline(ps []TPart) bool {
 	var flat []struct {
-		lit       string
-		isLit     bool
+		lit            string
+		isLit          bool
 		stripL, stripR bool // marker strips to its left / right
 	}
 	var rec func(ps []TPart)
